@@ -190,3 +190,105 @@ Section A.
     split; [apply negb_false_iff in Hc; exact Hc|]. split; [exact Hv|]. split; [exact Hma|]. lia.
   Qed.
 End A.
+
+(* Full inversion of replyh: what a freshly serialised, delivered reply is made of *)
+Section D.
+  Variable md5 : bytes -> bytes.
+  Variable rx : N -> bytes -> option (list (Z * Z)).
+  Variable cfg : config.
+  Variable fs : N -> bool.
+
+  Inductive delivered (st : state) (s : nat) (buf rnd : bytes) (c : nat) (p : bytes) : Prop := mkDelivered
+    (dl_h : nat) (dl_r : request) (dl_msg : radmsg) (dl_a1 : list tlv) (dl_ttlres : N)
+    (dl_a2 dl_a3 dl_a4 dl_a5 dl_a6 dl_a8 : list tlv) (dl_ser : bytes)
+    (dl_slot : slot_of st s (nth 1 buf 0) = Some dl_h)
+    (dl_live : get_rq st dl_h = Some dl_r)
+    (dl_from : rq_from dl_r = Some c)
+    (dl_parsed : buf2radmsg md5 buf (sc_secret (srvconf_of cfg s)) (match rq_msg dl_r with Some m => Some (m_auth m) | None => None end) = Some dl_msg)
+    (dl_code : reply_codes (m_code dl_msg) = true)
+    (dl_rwin : dorewrite rx (m_attrs dl_msg) (sc_rwin (srvconf_of cfg s)) = Some dl_a1)
+    (dl_ttl : checkttl (o_ttl0 (cf_opt cfg)) (o_ttl1 (cf_opt cfg)) dl_a1 = (dl_ttlres, dl_a2) /\ dl_ttlres <> 0)
+    (dl_mppe : ms_loop md5 dl_a2 (sc_secret (srvconf_of cfg s)) (cc_secret (clconf_of cfg c))
+                 (match rq_buf dl_r with Some b => firstn 16 (skipn 4 b) | None => [] end) (rq_rqauth dl_r) = Some dl_a3)
+    (dl_tunnel : (if m_code dl_msg =? Consts.RAD_Access_Accept
+                  then tunnelpwd_loop md5 dl_a3 (sc_secret (srvconf_of cfg s)) (cc_secret (clconf_of cfg c))
+                         (match rq_msg dl_r with Some m => m_auth m | None => [] end) (rq_rqauth dl_r) rnd
+                  else Some dl_a3) = Some dl_a4)
+    (dl_user : match rq_origuser dl_r, gettype Consts.RAD_Attr_User_Name dl_a4 with
+               | Some ou, Some _ => if Consts.RAD_Max_Attr_Value_Length <? nlen ou then None
+                                    else Some (replace_first Consts.RAD_Attr_User_Name ou dl_a4)
+               | _, _ => Some dl_a4
+               end = Some dl_a5)
+    (dl_rwout : dorewrite rx dl_a5 (cc_rwout (clconf_of cfg c)) = Some dl_a6)
+    (dl_final : dl_a8 = (let a7 := if reply_code (m_code dl_msg) then ensuremsgauthfront dl_a6 else dl_a6 in
+                         if fs 30 then a7 else ttl_stage_add (o_ttl0 (cf_opt cfg)) (o_ttl1 (cf_opt cfg)) (o_addttl (cf_opt cfg)) (cc_addttl (clconf_of cfg c)) dl_ttlres a7))
+    (dl_bytes : radmsg2buf md5 (mkMsg (m_code dl_msg) (rq_rqid dl_r) (rq_rqauth dl_r) dl_a8 false) (cc_secret (clconf_of cfg c)) = Ok (Some (p, dl_ser))).
+
+  Theorem replyh_delivered st s buf now rnd c p :
+    In (OReply c p) (snd (replyh md5 rx cfg fs st s buf now rnd)) ->
+    (exists h r, slot_of st s (nth 1 buf 0) = Some h /\ get_rq st h = Some r /\ rq_from r = Some c /\ rq_replybuf r = Some p) \/
+    delivered st s buf rnd c p.
+  Proof.
+    unfold replyh. cbv zeta.
+    set (st0 := set_server st s (set_lost (get_server st s) 0)).
+    assert (Hslot : sl_rq (get_slot (get_server st0 s) (nth 1 buf 0)) = slot_of st s (nth 1 buf 0)).
+    { change (slot_of st0 s (nth 1 buf 0) = slot_of st s (nth 1 buf 0)). subst st0.
+      apply (slot_of_set_server_same fs). reflexivity. }
+    rewrite Hslot. clear Hslot.
+    assert (Hget : forall h, get_rq st0 h = get_rq st h) by reflexivity.
+    destruct (slot_of st s (nth 1 buf 0)) as [h|] eqn:Hs.
+    2:{ destruct (if fs 20 then None else _) as [msg|]; [|cbn; intuition discriminate].
+        destruct (negb _); cbn; intuition discriminate. }
+    rewrite Hget. destruct (get_rq st h) as [r|] eqn:Hr.
+    2:{ destruct (if fs 20 then None else _) as [msg|]; [|cbn; intuition discriminate].
+        destruct (negb _); cbn; intuition discriminate. }
+    destruct (fs 20); [cbn; intuition discriminate|].
+    destruct (buf2radmsg md5 buf _ _) as [msg|] eqn:Hp; [|cbn; intuition discriminate].
+    destruct (negb (reply_codes (m_code msg))) eqn:Hc; [cbn; intuition discriminate|].
+    destruct (sl_tries _ =? 0); [cbn; intuition discriminate|].
+    destruct (m_mainvalid msg); [cbn; intuition discriminate|].
+    match goal with |- context [if ?g then (_, [ORet 1]) else _] => destruct g end; [cbn; intuition discriminate|].
+    destruct (_ =? Consts.RAD_Status_Server).
+    { match goal with |- context [if ?g then _ else _] => destruct g end; cbn; intuition discriminate. }
+    match goal with |- context [match ?x with Some _ => _ | None => (_, [ORet 1]) end] => destruct x as [a1|] eqn:Rw end; [|cbn; intuition discriminate].
+    assert (Rw' : dorewrite rx (m_attrs msg) (sc_rwin (srvconf_of cfg s)) = Some a1)
+      by (revert Rw; destruct (sc_rwin (srvconf_of cfg s)); [destruct (fs 21); [discriminate|]|]; exact (fun x => x)).
+    destruct (checkttl _ _ a1) as [ttlres a2] eqn:Ttl.
+    destruct (ttlres =? 0) eqn:T0; [cbn; intuition discriminate|].
+    destruct (rq_from r) as [c0|] eqn:Hf; [|cbn; intuition discriminate].
+    destruct (ms_loop _ _ _ _ _ _) as [a3|] eqn:Ms; [|cbn; intuition discriminate].
+    match goal with |- context [match ?x with Some _ => _ | None => (_, [ORet 1]) end] => destruct x as [a4|] eqn:Tp end; [|cbn; intuition discriminate].
+    match goal with |- context [match ?x with Some _ => _ | None => (_, [ORet 1]) end] => destruct x as [a5|] eqn:Un end; [|cbn; intuition discriminate].
+    assert (Un' : match rq_origuser r, gettype Consts.RAD_Attr_User_Name a4 with
+                  | Some ou, Some _ => if Consts.RAD_Max_Attr_Value_Length <? nlen ou then None
+                                       else Some (replace_first Consts.RAD_Attr_User_Name ou a4)
+                  | _, _ => Some a4
+                  end = Some a5).
+    { revert Un. destruct (rq_origuser r); [|exact (fun x => x)]. destruct (gettype Consts.RAD_Attr_User_Name a4); [|exact (fun x => x)].
+      destruct (_ <? _); [exact (fun x => x)|]. destruct (fs 24); [discriminate | exact (fun x => x)]. }
+    match goal with |- context [match ?x with Some _ => _ | None => (_, [ORet 1]) end] => destruct x as [a6|] eqn:Rwo end; [|cbn; intuition discriminate].
+    assert (Rwo' : dorewrite rx a5 (cc_rwout (clconf_of cfg c0)) = Some a6)
+      by (revert Rwo; destruct (cc_rwout (clconf_of cfg c0)); [destruct (fs 25); [discriminate|]|]; exact (fun x => x)).
+    match goal with |- context [if ?g then (_, [ORet 1]) else _] => destruct g end; [cbn; intuition discriminate|].
+    match goal with |- context [sendreply md5 cfg fs (newrqref ?stx h) h] => set (stq := stx) end.
+    destruct (sendreply md5 cfg fs (newrqref stq h) h) as [st' o] eqn:S.
+    cbn [snd]. intro Hin.
+    destruct (sendreply_out _ _ _ _ _ _ _ S) as [-> | (r' & c' & b & G & Hf' & -> & Hb)].
+    { cbn in Hin. intuition discriminate. }
+    assert (Gq : get_rq stq h = Some (rq_set_msg r (Some (mkMsg (m_code msg) (rq_rqid r) (rq_rqauth r)
+                   (if fs 30 then (if reply_code (m_code msg) then ensuremsgauthfront a6 else a6)
+                    else ttl_stage_add (o_ttl0 (cf_opt cfg)) (o_ttl1 (cf_opt cfg)) (o_addttl (cf_opt cfg)) (cc_addttl (clconf_of cfg c0)) ttlres
+                           (if reply_code (m_code msg) then ensuremsgauthfront a6 else a6)) false)))).
+    { subst stq. eapply get_rq_set_rq. exact Hr. }
+    unfold newrqref in G. rewrite Gq in G. rewrite (get_rq_set_rq _ _ _ _ Gq) in G. injection G as <-.
+    cbn [rq_from rq_set_refcount rq_set_msg rq_replybuf rq_msg] in *.
+    rewrite Hf in Hf'. injection Hf' as <-.
+    cbn [app In] in Hin. destruct Hin as [E | [E | []]]; [|discriminate]. injection E as <- <-.
+    destruct Hb as [Hb | (Hb & m & a & Em & R)].
+    - left. exists h, r. repeat split; assumption.
+    - right. injection Em as <-.
+      eapply (mkDelivered st s buf rnd c0 b h r msg a1 ttlres a2 a3 a4 a5 a6 _ a); try eassumption; try reflexivity.
+      + apply negb_false_iff in Hc. exact Hc.
+      + split; [exact Ttl | lia].
+  Qed.
+End D.
